@@ -248,6 +248,15 @@ func (a *Activation) stdlibCall(st *State, callee *ssa.Function, cc *ssa.CallCom
 	case "time.Now":
 		mark()
 		return a.havocValue(st, resT, "now"), true
+	case "bufio.NewReader", "bufio.NewReaderSize":
+		// a fresh buffered reader; what can be read through it is what was left on the
+		// underlying reader when it was created
+		mark()
+		g.trusted["bufio.NewReader(Size): the new reader's avail() equals the underlying reader's avail() at creation"] = true
+		obj := g.newObject(st, "bufio.Reader")
+		under := app(SLoc, "iface_loc", args[0].T)
+		st.heaps["Avail"] = sto(g.heap(st, "Avail"), obj, sel(g.heap(st, "Avail"), under))
+		return Val{T: obj}, true
 	case "context.Background", "context.TODO":
 		mark()
 		return a.havocValue(st, resT, "ctx"), true
@@ -299,6 +308,24 @@ func (a *Activation) stdlibCall(st *State, callee *ssa.Function, cc *ssa.CallCom
 		n := g.fresh("rn", bvSort(64))
 		e := g.fresh("rerr", SIface)
 		g.assume(st, and(bvcmp("bvule", n, sLen(buf)), bvcmp("bvule", n, av), eq(eq(e, nilIface), eq(n, sLen(buf)))))
+		// io.ReadFull's documented outcomes, with avail(r) read as "bytes before the end of
+		// the stream": io.EOF iff nothing was left, io.ErrUnexpectedEOF iff the stream ended
+		// inside the request (all that was left has been read); any other error is an I/O
+		// error that is neither (readers report the end of the stream with io.EOF itself).
+		{
+			g.trusted["io.ReadFull: returns io.EOF only when 0 bytes were left on the stream, io.ErrUnexpectedEOF only when 0 < left < len(buf) (and reads them all); other errors do not match io.EOF/io.ErrUnexpectedEOF under errors.Is"] = true
+			g.declareFun("err_is", []string{SIface, SIface}, SBool)
+			eofC := a.sentinel("io", "EOF")
+			ueofC := a.sentinel("io", "ErrUnexpectedEOF")
+			isE := func(x, y Term) Term { return app(SBool, "err_is", x, y) }
+			g.assume(st, and(
+				implies(eq(e, eofC), and(eq(n, bv64(0)), eq(av, bv64(0)))),
+				implies(eq(e, ueofC), and(not(eq(n, bv64(0))), bvcmp("bvult", n, sLen(buf)), eq(n, av))),
+				implies(and(not(eq(e, nilIface)), bvcmp("bvuge", av, sLen(buf))), and(not(eq(e, eofC)), not(eq(e, ueofC)))),
+				implies(and(not(eq(e, nilIface)), eq(av, bv64(0)), not(eq(sLen(buf), bv64(0)))), or(eq(e, eofC), not(isE(e, eofC)))),
+				implies(and(not(eq(e, eofC)), not(eq(e, ueofC))), and(not(isE(e, eofC)), not(isE(e, ueofC)))),
+				isE(eofC, eofC), isE(ueofC, ueofC), not(isE(eofC, ueofC)), not(isE(ueofC, eofC)), not(eq(eofC, ueofC))))
+		}
 		st.heaps["Avail"] = sto(g.heap(st, "Avail"), r, bvop("bvsub", av, n))
 		a.frameRange(st, sArr(buf), sOff(buf), sLen(buf), pos)
 		a.havocRange(st, bvSort(8), frameRangeT{arr: sArr(buf), lo: sOff(buf), n: sLen(buf)})
